@@ -45,6 +45,21 @@ def main():
             ctx.violation(f"exception-in-real-code/{os.path.basename(site.filename)}:{site.name}",
                           {"broken": "the check could not complete: the implementation raised unexpectedly", "exception": repr(e)[:500], "traceback": tb[-4000:]}, False)
             sys.exit(ctx.finish())
+        import subprocess
+        here = os.path.dirname(os.path.abspath(__file__))
+        mine = [f for f in frames if f.filename.startswith(here)]
+        infra = (isinstance(e, (subprocess.TimeoutExpired, subprocess.CalledProcessError, MemoryError, OSError, ImportError, EOFError))
+                 or not mine or os.path.basename(mine[-1].filename) in ("common.py", "main.py"))
+        if not infra:
+            # the property module itself failed while processing what the real code returned (a shape, a type, an attribute it relies
+            # on).  On the unchanged tree this never happens (the checks are deterministic given VERIF_SEED), so the correspondence
+            # between model and implementation can no longer be carried out: reported as a violation without a failing input,
+            # naming the place where the comparison stopped.  Failures of the machinery (build, driver, timeout, memory, I/O) stay exit 2.
+            site = mine[-1]
+            ctx.violation(f"correspondence-aborted/{os.path.basename(site.filename)}:{site.name}",
+                          {"broken": f"the correspondence stream in {os.path.basename(site.filename)}:{site.lineno} ({site.name}) could not be completed on the "
+                                     "values returned by the implementation", "statement": (site.line or "")[:300], "exception": repr(e)[:500], "traceback": tb[-4000:]}, False)
+            sys.exit(ctx.finish())
         # a crash of the machinery itself is not a verdict about e3nn: exit 2
         ctx.log("harness error (no verdict)")
         sys.exit(2)
